@@ -195,7 +195,78 @@ class State:
         return self.next_id
 
     def fork(self):
-        return copy.deepcopy(self)
+        # events / flags / trace hold immutable tuples (and fact dictionaries that are never
+        # written): share the items, copy the list.  Everything else is copied deeply with one
+        # memo so that aliasing between frames, objects and tokens is preserved.
+        s = State.__new__(State)
+        memo = {}
+        for k, v in self.__dict__.items():
+            if k in ('events', 'flags', 'trace'):
+                s.__dict__[k] = list(v)
+            else:
+                s.__dict__[k] = fast_copy(v, memo)
+        return s
+
+
+_IMMUTABLE = {Moved, Unk, Const, Own, Buf, Rec, Ref, Discr, str, int, bool, float, type(None), frozenset}
+
+
+def fast_copy(x, memo):
+    """Deep copy specialised to the interpreter's state: values that are never mutated in place are
+    shared, containers and mutable values are copied once per identity (aliasing preserved)."""
+    t = type(x)
+    if t in _IMMUTABLE:
+        return x
+    i = id(x)
+    y = memo.get(i)
+    if y is not None:
+        return y
+    if t is dict:
+        y = {}
+        memo[i] = y
+        for k, v in x.items():
+            y[k] = fast_copy(v, memo)
+    elif t is list:
+        y = []
+        memo[i] = y
+        for v in x:
+            y.append(fast_copy(v, memo))
+    elif t is tuple:
+        items = [fast_copy(v, memo) for v in x]
+        y = x if all(a is b for a, b in zip(items, x)) else tuple(items)
+    elif t is Cell:
+        y = Cell.__new__(Cell)
+        memo[i] = y
+        y.k, y.ty, y.state = x.k, x.ty, x.state
+        y.val = fast_copy(x.val, memo)
+        y.more = [fast_copy(v, memo) for v in x.more]
+    elif t is Agg:
+        y = Agg(x.ty, x.adt, None, x.origin)
+        memo[i] = y
+        y.fields = fast_copy(x.fields, memo)
+    elif t is Enum:
+        y = Enum(x.ty, x.variant, None, x.origin)
+        memo[i] = y
+        y.payload = fast_copy(x.payload, memo)
+    elif t is MD:
+        y = MD(None)
+        memo[i] = y
+        y.inner = fast_copy(x.inner, memo)
+    elif t is BufObj:
+        y = BufObj.__new__(BufObj)
+        memo[i] = y
+        y.in_record, y.borrowed = x.in_record, x.borrowed
+        y.cells = fast_copy(x.cells, memo)
+    elif t is Token:
+        y = Token.__new__(Token)
+        memo[i] = y
+        y.ty, y.origin, y.state, y.where = x.ty, x.origin, x.state, x.where
+    elif t is set:
+        y = set(x)
+        memo[i] = y
+    else:
+        y = copy.deepcopy(x, memo)
+    return y
 
 
 # ---------------------------------------------------------------------------
